@@ -2,6 +2,7 @@ import Sessions.FactsIrRegen
 import Sessions.FactsIrCache
 import Sessions.FactsIrHandlers
 import Sessions.FactsIrLogin
+import Sessions.FactsIrStart
 /-! All equivalence theorems between the translated Go functions (`Facts.ir_*`, regenerated) and the model, with their axioms. -/
 #print axioms FactsIr.regenerateID_eq
 #print axioms FactsIr.destroy_eq_model
@@ -15,3 +16,6 @@ import Sessions.FactsIrLogin
 #print axioms FactsIr.getAndDelete_default
 #print axioms FactsIr.logIn_eq_model
 #print axioms FactsIr.get_eq_model
+#print axioms FactsIr.start_create_block_partial
+#print axioms FactsIr.runs_append
+#print axioms FactsIr.start_shape
